@@ -28,6 +28,8 @@
 #include "Variogram/Vario.hpp"
 #include "Variogram/VarioParam.hpp"
 #include "geoslib_f.h"
+#include "LithoRule/Rule.hpp"
+#include "LithoRule/RuleProp.hpp"
 
 using namespace sk;
 
@@ -93,8 +95,8 @@ std::string readBack(const World& W)
 const char* OBS10[] = {"covmat", "covmat-optim", "covmat-symoptim", "kriging", "xvalid", "vario", "vario-fit", "migrate", "frombox", "addrandom",
                        "simgauss", "simtub", "simtub-nc", "simfft", "kcalc", "kcalc", "kriging", "kcalc", "kcalc", "kriging"};
 const int NOBS10 = 20;
-const char* OBS13[] = {"simtub", "simtub-nc", "simfft", "gibbs", "simtub", "simtub-nc"};
-const int NOBS13 = 6;
+const char* OBS13[] = {"simtub", "simtub-nc", "simfft", "gibbs", "simtub", "simtub-nc", "simpgs", "simpgs", "gibbs"};
+const int NOBS13 = 9;
 
 int freeTargets(const World& W);
 
@@ -341,17 +343,19 @@ Observed observe(World& W, const Op& op, int seedShift, Ctx* c, bool judge13, lo
         else c->count("probe.ranks-differ");
       }
       // conditioning: a target coinciding with a datum reproduces it
-      if (k == "simtub" && W.spec.outKind == 0 && W.spec.onNodes && W.spec.undefIn == 0)
+      if (k == "simtub" && W.spec.onNodes && W.spec.undefIn == 0)
       {
         DbGrid* g = dynamic_cast<DbGrid*>(W.dbout);
         int checked = 0;
-        for (int ie = 0; g && ie < W.dbin->getSampleNumber(); ie++)
+        for (int ie = 0; ie < W.dbin->getSampleNumber(); ie++)
         {
           if (!W.dbin->isActive(ie)) continue;
           VectorDouble xy = W.dbin->getSampleCoordinates(ie);
-          int node = g->coordinateToRank(xy, false, 1e-9);
-          if (node < 0 || !g->isActive(node)) continue;
-          VectorDouble cn = g->getSampleCoordinates(node);
+          int node = -1;
+          if (g) node = g->coordinateToRank(xy, false, 1e-9);
+          else if (ie < 4 && ie < W.dbout->getSampleNumber()) node = ie; // point target: data i sits on target point i
+          if (node < 0 || !W.dbout->isActive(node)) continue;
+          VectorDouble cn = W.dbout->getSampleCoordinates(node);
           bool on = true;
           for (int dd = 0; dd < W.spec.ndim; dd++) if (std::fabs(cn[dd] - xy[dd]) > 1e-12) on = false;
           if (!on) continue;
@@ -385,6 +389,85 @@ Observed observe(World& W, const Op& op, int seedShift, Ctx* c, bool judge13, lo
     DbGrid* g = dynamic_cast<DbGrid*>(W.dbout);
     o.ret = simfft(g, W.model, param, 1 + a % 2, seed);
     o.digest = std::to_string(o.ret) + newColumnsDigest(W.dbout, nc);
+    return o;
+  }
+  if (k == "simpgs")
+  {
+    // plurigaussian simulation: rule on one or two underlying Gaussian functions, constant proportions;
+    // conditional when data (facies codes) sit on target nodes
+    static const std::vector<VectorString> rules = {{"S", "T", "F1", "F2", "F3"}, {"S", "F1", "F2"}, {"T", "F1", "F2"}, {"S", "S", "F1", "F2", "F3"}};
+    const VectorString& rn = rules[(size_t)(a % 4)];
+    int nfac = (int)rn.size() / 2 + 1;
+    Rule* rule = Rule::createFromNames(rn);
+    VectorDouble props(nfac, 1. / nfac);
+    RuleProp* rp = RuleProp::createFromRule(rule, props);
+    Model* m1 = Model::createFromParam(ECov::EXPONENTIAL, W.spec.range, 1.);
+    Model* m2 = Model::createFromParam(ECov::SPHERICAL, W.spec.range * 1.3, 1.);
+    bool cond = (b % 2 == 0) && W.spec.onNodes && W.spec.outKind == 0;
+    Db* din = nullptr;
+    VectorDouble fac;
+    if (cond)
+    {
+      // data base of facies codes on the first data (which sit on grid nodes)
+      // every conditioning datum carries a facies: the data base holds the first data only (those on nodes)
+      Rng rf((uint64_t)op.I(3, 7) * 31 + 5);
+      int nd = std::min(4, W.dbin->getSampleNumber());
+      VectorDouble tab;
+      VectorString nms, lcs;
+      for (int dd = 0; dd < W.spec.ndim; dd++) { nms.push_back(std::string("x") + char('a' + dd)); lcs.push_back("x" + std::to_string(dd + 1)); }
+      nms.push_back("facies");
+      lcs.push_back("z1");
+      fac = VectorDouble(nd, TEST);
+      for (int i = 0; i < nd; i++)
+      {
+        for (int dd = 0; dd < W.spec.ndim; dd++) tab.push_back(W.dbin->getCoordinate(i, dd));
+        fac[i] = 1 + (double)rf.below(nfac);
+        tab.push_back(fac[i]);
+      }
+      din = Db::createFromSamples(nd, ELoadBy::SAMPLE, tab, nms, lcs, true);
+    }
+    int nbsimu = 1 + (int)(op.I(3, 0) % 2);
+    int nc = W.dbout->getColumnNumber();
+    NeighUnique* nu = NeighUnique::create();
+    o.ret = simpgs(din, W.dbout, rp, m1, m2, nu, nbsimu, seed, false, false, false, false, 20 + b % 30, 5, 20 + a % 20);
+    o.digest = std::to_string(o.ret) + newColumnsDigest(W.dbout, nc);
+    if (judge13 && c && o.ret == 0 && cond)
+    {
+      DbGrid* g = dynamic_cast<DbGrid*>(W.dbout);
+      int checked = 0;
+      for (int i = 0; g && i < din->getSampleNumber() && i < 4; i++)
+      {
+        if (!din->isActive(i) || isUndef(fac[i])) continue;
+        VectorDouble xy = din->getSampleCoordinates(i);
+        int node = g->coordinateToRank(xy, false, 1e-9);
+        if (node < 0 || !g->isActive(node)) continue;
+        VectorDouble cn = g->getSampleCoordinates(node);
+        bool on = true;
+        for (int dd = 0; dd < W.spec.ndim; dd++) if (std::fabs(cn[dd] - xy[dd]) > 1e-12) on = false;
+        if (!on) continue;
+        for (int ic = nc; ic < W.dbout->getColumnNumber(); ic++)
+        {
+          double f = W.dbout->getValueByColIdx(node, ic);
+          checked++;
+          if (isUndef(f) || f != fac[i])
+          {
+            char bb[200];
+            snprintf(bb, sizeof bb, "datum %d observed facies %g simulated %g (column %s)", i, fac[i], f, W.dbout->getNameByColIdx(ic).c_str());
+            c->violation("C13|facies-at-data-differs|simpgs", bb);
+            ic = W.dbout->getColumnNumber();
+            i = 1000;
+          }
+        }
+      }
+      if (checked) c->count("probe.facies-at-data-checked", checked);
+    }
+    if (c && !cond) c->count("probe.simpgs-nonconditional");
+    delete nu;
+    delete din;
+    delete rp;
+    delete rule;
+    delete m1;
+    delete m2;
     return o;
   }
   if (k == "gibbs")
@@ -466,7 +549,8 @@ bool admissibleObs(const std::string& k, const WorldSpec& w)
   if (k == "simfft") return w.outKind == 0 && w.nvar == 1 && w.nfex == 0 && w.ndim == 2; // 3-D FFT grids cost tens of seconds under ASan
   if (k == "simtub" || k == "simtub-nc") return w.nfex == 0;
   if (k == "vario-fit") return w.nvar == 1;
-  if (k == "gibbs") return w.nvar == 1 && w.nfex == 0 && w.selIn == 0 && w.undefIn == 0;
+  if (k == "gibbs") return w.nvar == 1 && w.nfex == 0 && w.undefIn == 0; // with or without a selection
+  if (k == "simpgs") return w.ndim == 2 && w.nfex == 0 && w.outKind == 0 && w.selIn == 0;
   if (k == "covmat" || k == "covmat-optim" || k == "covmat-symoptim") return w.nfex == 0;
   if (k == "kcalc") return w.nvar == 1 && w.nfex == 0 && w.undefIn == 0;
   return true;
@@ -979,8 +1063,8 @@ struct WorldWorkload : Workload
     Rng ro = stream(seed, id, run, "ops");
     Op w;
     w.kind = "world";
-    for (int a = 0; a < 18; a++) w.i.push_back(r.range(0, 1000));
-    if (id == "C13") w.i[13] = 1; // data on nodes
+    for (int a = 0; a < 19; a++) w.i.push_back(r.range(0, 1000));
+    if (id == "C13") w.i[13] = 1; // data on nodes / on target points
     WorldSpec spec = specFromOp(w);
     Op o;
     o.kind = "observe";
